@@ -7,25 +7,25 @@ HERE = os.path.dirname(os.path.dirname(os.path.abspath(__file__)))
 # id -> (technique, level text, level note, design ref)
 CHECKS = {
     "C01": (
-        "property-based testing (proptest) against an explicit-state reference evaluator",
-        "No counterexample among the generated (network, formula) cases of the stated bounded shape: every state x sampled valid colour of the tool's result equals the explicit-state HCTL semantics, through 8 entry points. Exploration, not proof; the right level because the property quantifies over all networks and formulae and an executable independent semantics exists for small instances.",
-        "Trusts lib-param-bn aeon parsing / FnUpdate / function-table numbering and lib-bdd eval_in; colour validity is read from the graph; bounded to <=4 variables, <=12 parameter bits, quantifier nesting <=3.",
-        "DESIGN.md section 6, C01",
+        "property-based testing (proptest) against two reference evaluators: explicit-state (small networks) and an independent symbolic one (mid-size generated networks, bundled benchmark models), the second calibrated against the first on every run",
+        "No counterexample among the generated (network, formula) cases of the stated bounded shape: every state x sampled valid colour of the tool's result equals the explicit-state HCTL semantics, through 8 entry points; on 7-62-variable generated networks and 20 / 30 bundled models the whole result set equals the reference symbolic evaluator's. Exploration, not proof; the right level because the property quantifies over all networks and formulae and an executable independent semantics exists for small instances.",
+        "Trusts lib-param-bn aeon parsing / FnUpdate / function-table numbering and lib-bdd eval_in; colour validity is read from the graph; explicit oracle bounded to <=6 variables, <=12 parameter bits, states^depth <= 4096; the symbolic reference trusts lib-bdd operations and the construction of update-function BDDs; scale cases whose reference evaluation exceeds its budget are skipped and counted.",
+        "DESIGN.md sections 6 (C01) and 11a",
     ),
     "C02": (
-        "property-based testing (proptest) against an explicit-state reference evaluator + README equivalences as metamorphic relations",
+        "property-based testing (proptest) against an explicit-state reference evaluator (small networks) and a calibrated reference symbolic evaluator (mid-size networks, bundled models) + README equivalences as metamorphic relations",
         "No counterexample among generated (network, extended formula, context sets) cases: results of the 4 extended entry points equal the explicit-state semantics of wild-cards and restricted domains point-wise, and both sides of the three README equivalences evaluate to identical sets for generated bodies. Exploration over bounded instances.",
         "Trusted base of C01; context sets generated inside the unit set over state and parameter variables only (documented precondition).",
         "DESIGN.md section 6, C02",
     ),
     "C03": (
-        "property-based testing (proptest): invariants on every returned set, explicit model used to select observable cases",
+        "property-based testing (proptest): invariants on every returned set, explicit model used to select observable cases; deterministic generated stage with unknown functions of arity 5-8 (exact inclusion in the unit set, equality with the reference symbolic evaluator)",
         "No counterexample among generated strict-unit networks x closed plain/extended formulae: every set returned by the 12 entry points contains no (state, invalid colour) pair, is a subset of the unit set, reports counts not above the graph's, and (raw results) has a BDD support free of extra variables. Exploration.",
         "Trusted base of C01 plus lib-bdd subset / cardinality / support operations.",
         "DESIGN.md section 6, C03",
     ),
     "C13": (
-        "property-based testing (proptest) against an explicit-state reference evaluator + defining equivalences as metamorphic relations",
+        "property-based testing (proptest) against an explicit-state reference evaluator (small networks) and a calibrated reference symbolic evaluator (mid-size networks padded beyond 2^53 states, bundled models) + defining equivalences as metamorphic relations",
         "No counterexample among generated formulae containing EW/AW: point-wise agreement with greatest-fixed-point semantics, and agreement of the tool with itself on E[phi W psi] = E[phi U psi] | EG phi, A[phi W psi] = ~E[~psi U (~phi & ~psi)], psi => phi W psi. Exploration.",
         "Trusted base of C01.",
         "DESIGN.md section 6, C13",
@@ -74,30 +74,30 @@ CHECKS = {
     ),
     "C10": (
         "metamorphic property-based testing (proptest): substitution of closed sub-formulae by wild-cards bound to their raw results",
-        "No counterexample among generated formulae with 1-3 simultaneous replacements (all occurrences of a chosen sub-formula share one wild-card): raw and sanitised results unchanged; plain formulae through extended entry points with an empty context equal the plain entry points. Thorough tier adds bundled benchmark models. Exploration.",
+        "No counterexample among generated formulae with 1-3 (one case in seven: 4-12) simultaneous replacements (all occurrences of a chosen sub-formula share one wild-card): raw and sanitised results unchanged; plain formulae through extended entry points with an empty context equal the plain entry points. Thorough tier adds bundled benchmark models. Exploration.",
         "Only closed sub-formulae are replaced; raw sets come from the dirty entry point on the same graph object.",
         "DESIGN.md section 6, C10",
     ),
     "C12": (
-        "differential property-based testing (proptest): dedicated pattern evaluation vs generic evaluation of a pattern-defeating rewrite; explicit-state reference",
+        "differential property-based testing (proptest): dedicated pattern evaluation vs generic evaluation of a pattern-defeating rewrite; explicit-state reference (small networks), calibrated reference symbolic evaluator without shortcuts (mid-size networks, three bundled models)",
         "No counterexample among generated formulae with the two patterns / near-misses planted at the root, under operators, inside (restricted) quantifier scopes, in batches, on constrained networks: shortcut result == generic result == explicit semantics. Exploration.",
         "`{x} & {x}` for `{x}` is logically identical and not recognised by the pattern matcher (by reading it).",
         "DESIGN.md section 6, C12",
     ),
     "C15": (
-        "property-based testing (proptest): differential across k, raw vs sanitised point-wise",
+        "property-based testing (proptest): differential across k, raw vs sanitised point-wise; deterministic generated stage with large results (10^4-10^6 BDD nodes) compared as whole sets",
         "No counterexample (graphs from get_extended_symbolic_graph and graphs restricted by the caller to a subset of valid colours): sanitised results live in the canonical context (names/order of SymbolicAsyncGraph::new), interoperate with that graph, equal the raw results point-wise and are BDD-equal for k = depth, depth+1, depth+3. Exploration.",
         "Trusted base of C01.",
         "DESIGN.md section 6, C15",
     ),
     "C18": (
-        "differential property-based testing (proptest): unsafe_ex variant vs standard evaluation; explicit model decides steady-state freedom",
+        "differential property-based testing (proptest): unsafe_ex variant vs standard evaluation; explicit model decides steady-state freedom; mid-size networks and bundled models: both variants vs a calibrated reference symbolic evaluator",
         "No counterexample on (a) the loop-insensitive fragment on arbitrary networks and (b) arbitrary plain formulae on steady-state-free networks: model_check_formula_unsafe_ex == model_check_formula_dirty == explicit semantics. Exploration.",
         "Trusted base of C01.",
         "DESIGN.md section 6, C18",
     ),
     "C20": (
-        "differential property-based testing (proptest): colour slice of the parametrised result vs result on the network instantiated by pick_witness",
+        "differential property-based testing (proptest): colour slice of the parametrised result vs result on the network instantiated by pick_witness; generated stage on networks padded to 2^45-2^85 state-colour pairs with point-like context sets",
         "No counterexample among generated (network, valid colour, plain or extended formula with context sets restricted to the colour): the states the result associates with a colour equal the result on the instantiated network. Thorough tier adds bundled benchmark models. Exploration.",
         "lib-param-bn's pick_witness is trusted to instantiate the colour (independent of the harness's FnUpdate interpreter).",
         "DESIGN.md section 6, C20",
@@ -165,7 +165,7 @@ def main():
             "name": "hctl-verif",
             "path": "/verif/harness",
             "serves_properties": [c["property_id"] for c in checks],
-            "kind_free_text": "Rust crate: proptest driven from a binary on 16 worker threads (fixed seeds from VERIF_SEED), bounded-exhaustive enumeration stages, libFuzzer targets under harness/fuzz (thorough tier of C05, C06, C14; artefacts are re-checked by the same oracle and minimised before being reported); explicit-state HCTL evaluator, reference parser, alpha-equivalence, truth-table families as oracles; regression inputs in /verif/regress are replayed first on every run",
+            "kind_free_text": "Rust crate: proptest driven from a binary on 16 worker threads (fixed seeds from VERIF_SEED), bounded-exhaustive enumeration stages, libFuzzer targets under harness/fuzz (thorough tier of C05, C06, C14; artefacts are re-checked by the same oracle and minimised before being reported); second oracle: reference symbolic evaluator (refsym.rs) for networks beyond the explicit one, calibrated against it on every run; explicit-state HCTL evaluator, reference parser, alpha-equivalence, truth-table families as oracles; regression inputs in /verif/regress are replayed first on every run",
         }],
         "checks": checks,
         "notes": "Exit codes of every check: 0 held, 1 violation (with a VIOLATION line), 2 inconclusive / harness error (never a VIOLATION line). Known findings: /verif/known_findings.json.",
